@@ -523,3 +523,61 @@ def wc_replay(inputs, clause):
 
 
 write_cache.replay = wc_replay
+
+
+# ------------------------------------------------------------------------------ cache codec: write_cache then read_cached restores the
+# table (bounded: a fixed shape of positions/bases, symbolic sample names)
+SAMPLE_UNSAFE = ',\t\n\r\x0b\x0c '
+
+
+def codec_setup(eng):
+    from pyvc import segstr
+    wc_setup(eng)
+    eng.monitor = None
+    eng.ghost['no_faults'] = True
+    x, y = (segstr.register_atom(eng, named(STR, n), SAMPLE_UNSAFE) for n in ('sample_x', 'sample_y'))
+    eng.assume(z3.And(z3.Length(x.z) >= 1, z3.Length(y.z) >= 1, x.z != y.z, x.z != z3.StringVal('s1'), y.z != z3.StringVal('s1')))
+    table = {5: {'A': {'s1', x}}, 9: {'C': {x}, 'T': {y}}, 120: {'G': {'s1'}}}
+    eng.spec_env['TABLE'] = table
+    eng.spec_env['RESOLVER'] = Builtin('RESOLVER', lambda e, a, k, n: Obj(
+        'AlleleResolver', {'locationToAllele': a[0], 'region_start': None, 'region_end': None}, info=e.loader.classref(FA, 'AlleleResolver')))
+
+    def gz_open(e, a, k, n):
+        path, mode = a[0], (a[1] if len(a) > 1 else 'rb')
+        if 'w' in mode:
+            e.ghost['fs'][path] = []
+            e.ghost['closed'][path] = False
+            o = Obj('GzWriter', {'path': path})
+        else:
+            o = Obj('GzReader', {'path': path})
+        o.vc_immutable = True
+        return o
+    stubs.STUBS['GzReader'] = {'methods': {'__enter__': lambda e, o: o, '__exit__': lambda e, o, *a: None,
+                                           '__iter__': lambda e, o: list(e.ghost['fs'][o.attrs['path']])}, 'props': {}, 'setters': {}}
+    stubs.STUBS['GzWriter']['methods']['write'] = lambda e, o, data: e.ghost['fs'][o.attrs['path']].append(data)
+    externals.EXTRA['gzip.open'] = gz_open
+    externals.EXTRA['os.rename'] = lambda e, a, k, n: (e.ghost['fs'].__setitem__(a[1], e.ghost['fs'].pop(a[0])),
+                                                       e.ghost['closed'].__setitem__(a[1], e.ghost['closed'].pop(a[0])))[0]
+
+
+cache_codec = Contract(
+    PROP, FA + '::AlleleResolver', name='cache codec[write_cache then read_cached]',
+    harness='''
+w = RESOLVER({'chr1': TABLE})
+w.write_cache('cache/chr1.tsv.gz', 'chr1')
+r = RESOLVER(get_allele_dict())
+r.read_cached('cache/chr1.tsv.gz', 'chr1')
+return r.locationToAllele['chr1']
+''',
+    params={}, setup=codec_setup,
+    ensures={
+        'same_positions_and_bases': 'sorted(list(result.keys())) == [5, 9, 120] and all(sorted(list(result[p].keys())) == sorted(list(TABLE[p].keys())) for p in TABLE)',
+        'same_samples_under_every_base':
+            'all(len(result[p][b]) == len(TABLE[p][b]) and all((x in result[p][b]) for x in TABLE[p][b]) for p in TABLE for b in TABLE[p])',
+    },
+    raises={},
+    bounded='a table of 3 positions / 4 bases with 1-2 samples each; two symbolic sample names (no comma / whitespace), no region limits',
+    assumptions=['gzip text files: written lines are read back line by line (A4); sample names contain no comma, tab or other '
+                 'whitespace (VCF sample names)'],
+)
+UNITS.append(cache_codec)
